@@ -24,6 +24,14 @@ EXTENDS Mutability
 
 Kinds == {"value", "word", "aview", "sview", "sptr", "ptr", "pptr"}
 Ways  == {"none", "read", "copy", "write", "forward"}
+\* `extern` callees (features.md "Interoperability with C"; a Penne body is allowed): xaview = `[]i32` of an
+\* extern function (a view without length), xsptr = `&[]i32` of an extern function (a pointer to an array
+\* without length).  Two more ways: the callee hands its parameter on to `extern fn gx(r: &[]i32)`, which
+\* writes, either bare (`gx(q)`: xfwd) or with an address marker (`gx(&q)`: xfwdamp).
+ExternKinds == {"xaview", "xsptr"}
+AllKinds == Kinds \cup ExternKinds
+ExternWays == {"xfwd", "xfwdamp"}
+XPtr == Ptr(EndlessOf(I32t))
 
 SS_ == <<"struct", "S">>
 WW_ == <<"word", "W">>
@@ -31,13 +39,16 @@ WW_ == <<"word", "W">>
 ParamShape(kd) == CASE kd = "value" -> I32t [] kd = "word" -> WW_ [] kd = "aview" -> Slice(I32t)
                     [] kd = "sview" -> SS_ [] kd = "sptr" -> SPtr(I32t) [] kd = "ptr" -> Ptr(I32t)
                     [] kd = "pptr" -> Ptr(Ptr(I32t))
-ArgDecl(kd) == CASE kd \in {"value", "ptr"} -> I32t [] kd = "word" -> WW_ [] kd \in {"aview", "sptr"} -> Arr("2", I32t)
+                    [] kd = "xaview" -> View(EndlessOf(I32t)) [] kd = "xsptr" -> XPtr
+ArgDecl(kd) == CASE kd \in {"value", "ptr"} -> I32t [] kd = "word" -> WW_
+                 [] kd \in {"aview", "sptr", "xaview", "xsptr"} -> Arr("2", I32t)
                  [] kd = "sview" -> SS_ [] kd = "pptr" -> Ptr(I32t)
-TargetCell(kd) == CASE kd \in {"value", "ptr", "pptr"} -> "x" [] kd = "word" -> "wm" [] kd \in {"aview", "sptr"} -> "a0"
+TargetCell(kd) == CASE kd \in {"value", "ptr", "pptr"} -> "x" [] kd = "word" -> "wm"
+                [] kd \in {"aview", "sptr", "xaview", "xsptr"} -> "a0"
                 [] kd = "sview" -> "sm"
 \* the path f uses to reach the i32 it reads / writes through parameter q
 QPath(kd) == CASE kd \in {"value", "ptr", "pptr"} -> <<>> [] kd \in {"word", "sview"} -> <<"m">>
-               [] kd \in {"aview", "sptr"} -> <<"i">>
+               [] kd \in {"aview", "sptr", "xaview", "xsptr"} -> <<"i">>
 
 \* --- verdicts -------------------------------------------------------------
 QCell(kd, ctx, path, k) == [kind |-> "param", d |-> ParamType(ParamShape(kd)), path |-> path, k |-> k, ctx |-> ctx]
@@ -47,6 +58,9 @@ WayVerdict(kd, way) ==
     CASE way \in {"none", "read", "copy"} -> Ok(<<>>)
       [] way = "write" -> RVerdict(QCell(kd, "assign", QPath(kd), 0))
       [] way = "forward" -> RVerdict(QCell(kd, "arg", <<>>, ForwardK(kd)))
+      \* handing q on to `extern fn gx(r: &[]i32)`: q is a variable declared with the parameter type
+      [] way = "xfwd" -> ArgOK(ParamType(ParamShape(kd)), 0, XPtr)
+      [] way = "xfwdamp" -> ArgOK(ParamType(ParamShape(kd)), 1, XPtr)
 ArgVerdict(kd, amp) == ArgOK(ArgDecl(kd), amp, ParamShape(kd))
 
 \* a program is a sequence of parameters [kd, way, amp, sc]; sc is the STATEMENT CONTEXT in which the
@@ -60,8 +74,8 @@ Codes(prog) == UNION {ArgVerdict(prog[i].kd, prog[i].amp).codes \cup WayVerdict(
 Before == [x |-> 1, a0 |-> 2, a1 |-> 3, sm |-> 4, wm |-> 5]
 Written(i) == 10 + i                       \* the value parameter i writes
 \* a parameter reaches the caller's cell only through an address the caller wrote
-Reaches(p) == p.amp >= 1 /\ p.kd \in {"sptr", "ptr", "pptr"}
-Writes(p)  == p.way \in {"write", "forward"}
+Reaches(p) == p.amp >= 1 /\ p.kd \in {"sptr", "ptr", "pptr", "xsptr"}
+Writes(p)  == p.way \in {"write", "forward", "xfwd", "xfwdamp"}
 RECURSIVE Run(_, _, _)
 Run(prog, i, cells) == IF i > Len(prog) THEN cells
                        ELSE Run(prog, i + 1, IF Writes(prog[i]) /\ Reaches(prog[i])
